@@ -315,6 +315,7 @@ static int recv_events(m_ctx_t *c, int timeout) {
                     } else {
                         M_INFO("PoisonPilling '%s'.\n", mod->name);
                         /* Everything sent before the pill must be delivered before stopping: hand over events waiting in the batch queue */
+                        m_mem_ref(mod); // the handler may deregister the module
                         if (m_queue_len(mod->batch.events) > 0) {
                             m_queue_t *evts = mod->batch.events;
                             mod->batch.events = m_queue_new(mem_dtor);
@@ -323,6 +324,7 @@ static int recv_events(m_ctx_t *c, int timeout) {
                         if (m_mod_is(mod, M_MOD_RUNNING | M_MOD_PAUSED)) {
                             stop(mod, true);
                         }
+                        m_mem_unref(mod);
                     }
                 }
             }
